@@ -57,6 +57,10 @@ def _cases(tier):
     for k in A.key_strings(A.KEY_SYMBOLS_REALISTIC, 2):
         if A.realistic_key(k):
             yield {"in": ["K2", k], "opts": "key"}
+            yield {"in": ["K3", k], "opts": "key"}
+    for k in A.word_forms(A.KEY_WORDS, ["-"]):
+        if A.realistic_key(k):
+            yield {"in": ["K3", k], "opts": "key"}
     for v in A.VALUE_NAMES:
         for v2 in ("null", A.ABSENT, None):
             yield {"in": ["V", v, v2], "opts": "conv"}
@@ -68,13 +72,16 @@ def _samples(case):
         return A.graph_samples(case["in"][1]), [r"k\d"]
     if tag == "K":
         k = case["in"][1]
-        return [{k: {k: 1, "x": None}}], None
+        return [{k: {k: 1, "x": None, "when": "2020-01-01"}}], None
     if tag == "KL":
         k = case["in"][1]
-        return [{k: [{k: "x", "y": [1]}], "w": 1}], None
+        return [{k: [{k: "x", "y": [1], "at": "12:30"}], "w": 1}], None
     if tag == "K2":
         k = case["in"][1]
         return [{k: 1, "zz": [1], "yy": {"k1": 1}}, {}], [r"k\d"]
+    if tag == "K3":     # the key as an optional scalar AFTER an optional container (defaults precede it), next to a date-typed field
+        k = case["in"][1]
+        return [{"zz": [1], "when": "2020-01-01", k: 1}, {"when": "2021-01-01"}], [r"k\d"]
     if tag == "V":
         s = [A.obj1(case["in"][1])]
         if case["in"][2] is not None:
@@ -90,6 +97,8 @@ def _configs(case, tree):
         for fw in FWS:
             for l in lay:
                 yield fw, l, {}
+        for fw in ("attrs", "dataclasses"):
+            yield fw, "flat", {"convert_unicode": False}
     elif o == "sib":
         for fw in ("pydantic", "dataclasses"):
             for l in lay:
@@ -107,6 +116,8 @@ def _configs(case, tree):
                 yield fw, "flat", ({} if uni else {"convert_unicode": False})
         yield "pydantic", "nested", {}
         yield "dataclasses", "nested", {"meta": True}
+        yield "dataclasses", "flat", {"meta": True}
+        yield "attrs", "flat", {"meta": True}
     elif o == "conv":
         for fw in ("attrs", "dataclasses"):
             for conv in (False, True):
@@ -117,7 +128,7 @@ def _shape(case):
     tag = case["in"][0]
     if tag == "G":
         return ["G" + A.graph_name(case["in"][1])]
-    if tag in ("K", "K2", "KL"):
+    if tag in ("K", "K2", "K3", "KL"):
         k = case["in"][1]
         toks = []
         for w in A.KEY_WORDS:
